@@ -1464,6 +1464,7 @@ class Emitter:
             core = core["inner"][0]
         if core.get("kind") in ("CXXConstructExpr", "CXXTemporaryObjectExpr") and self.try_ctype(core) == ct and \
                 ct.startswith("struct ") and not ct.startswith("struct vf_") and \
+                ct[len("struct "):] not in self.cfg.get("opaque_ctor", {}) and \
                 (self.lib is None or self.with_pre(lambda: self.lib.construct(self, core))[1] is None):
             # T x(args);  — the constructor runs on the variable itself
             pre, e = self.with_pre(lambda: self.class_construct(core, name))
